@@ -20,7 +20,7 @@ ASSUMPTIONS = [
     "AES of the model is OpenSSL libcrypto (EVP, CBC, zero IV), cross-checked against a from-the-definition AES in C16",
     "the writer's single trailing empty line after the hex block is allowed (not part of the stated layout, not contradicting it)",
 ]
-REQUIRED_CLASSES = ["offset>65535", "comps>=2", "bec2.blocks>=2", "bec2.ecc", "enc-component", "route=path", "entries>255", "bec2.unknown-tag-block"]
+REQUIRED_CLASSES = ["flag-tag-mismatch=flag-without-tag", "flag-tag-mismatch=tag-without-flag", "offset>65535", "comps>=2", "bec2.blocks>=2", "bec2.ecc", "enc-component", "route=path", "entries>255", "bec2.unknown-tag-block"]
 
 
 def _model_comps(case, key):
@@ -37,13 +37,17 @@ def _cmp(what, got, want):
             what, n, len(got), len(want), got[max(0, n - 8): n + 24].hex(), want[max(0, n - 8): n + 24].hex()))
 
 
-def _check_fields(parsed, mcomps, what):
+def _check_fields(parsed, mcomps, what, key):
     if len(parsed) != len(mcomps):
         raise Violation("%s: strict parser sees %d entries, object has %d components" % (what, len(parsed), len(mcomps)))
     for i, (p, m) in enumerate(zip(parsed, mcomps)):
         if p["desc"] != m["desc"] or p["actual_len"] != m["actual_len"]:
             raise Violation("%s: entry %d fields differ: parsed %r, object %r" % (what, i + 1, (p["desc"], p["actual_len"]), (m["desc"], m["actual_len"])))
-        if m["enc"]:
+        if bool(p["enc"]) != bool(m["enc"]):
+            # flag and ENC tag disagree: the parser (which goes by the tag) cannot interpret the payload; the STORED bytes must follow the flag
+            if p["stored"] != M.stored_payload(m, key):
+                raise Violation("%s: entry %d (encrypt flag %r, ENC tag says %r): stored bytes do not follow the component's encrypt flag" % (what, i + 1, m["enc"], p["enc"]))
+        elif m["enc"]:
             if p["blob"][: len(m["blob"])] != m["blob"] or any(p["blob"][len(m["blob"]):]) or len(p["stored"]) != len(M.ossl.zeropad(m["blob"])):
                 raise Violation("%s: entry %d encrypted payload does not decrypt to the zero-padded content" % (what, i + 1))
         elif p["stored"] != m["blob"]:
@@ -77,6 +81,9 @@ def check_bf3(case, rec):
         rec.cls("offset>65535")
     if any(c.get("enc") for c in comps):
         rec.cls("enc-component")
+    for c in comps:
+        if c.get("mismatch"):
+            rec.cls("flag-tag-mismatch=" + c["mismatch"])
     rec.cls("route=" + case["route"])
     if len(comps) >= 2 or offset not in (0, 5) or any(c["desc"] for c in comps):
         rec.nt()
@@ -95,7 +102,7 @@ def check_bf3(case, rec):
             parsed = M.parse_body_strict(bytes(offset) + got, offset, k)
         except M.Reject as e:
             raise Violation("strict parser rejects to_binary(offset=%d) output: %s" % (offset, e))
-        _check_fields(parsed, mcomps, "to_binary")
+        _check_fields(parsed, mcomps, "to_binary", k)
     # full file through write_file
     try:
         text, _ = sut.write_text(lambda t: f.write_file(t, **kw), case["route"])
@@ -107,7 +114,7 @@ def check_bf3(case, rec):
         parsed = M.parse_bf3_strict(binary, k)
     except M.Reject as e:
         raise Violation("strict parser rejects written file: %s" % e)
-    _check_fields(parsed, mcomps, "write_file")
+    _check_fields(parsed, mcomps, "write_file", k)
 
 
 def check_bec2(case, rec):
@@ -168,7 +175,7 @@ def check_bec2(case, rec):
         parsed = M.parse_body_strict(got, pos, key)
     except M.Reject as e:
         raise Violation("strict parser rejects BEC2 body: %s" % e)
-    _check_fields(parsed, mcomps, "Bec2File.to_binary")
+    _check_fields(parsed, mcomps, "Bec2File.to_binary", key)
     # text route (blocks are re-randomised for ECC, so only the shape and the deterministic part are compared)
     with sut.DetKeys(case_hash(case) + b'2'):
         try:
@@ -190,7 +197,7 @@ def check_bec2(case, rec):
 
 def strat_bf3(tier):
     mx = 6144 if tier == "quick" else 32768
-    comp = st.one_of(S.plain_component(mx), S.plain_component(mx), S.enc_component(512))
+    comp = st.one_of(S.plain_component(mx), S.plain_component(mx), S.enc_component(512), S.mismatch_component(300))
     return st.fixed_dictionaries(dict(
         comments=S.comment_list(4),
         comps=st.lists(comp, max_size=5),
@@ -202,7 +209,7 @@ def strat_bf3(tier):
 
 def strat_bec2(tier):
     mx = 1024 if tier == "quick" else 8192
-    comp = st.one_of(S.plain_component(mx), S.enc_component(256))
+    comp = st.one_of(S.plain_component(mx), S.plain_component(mx), S.enc_component(256), S.enc_component(256), S.mismatch_component(200))
     return st.fixed_dictionaries(dict(
         comments=S.comment_list(3),
         comps=st.lists(comp, max_size=4),
